@@ -191,9 +191,16 @@ func (ex *Exec) call(fr *Frame, st *State, c *ssa.CallCommon, instr ssa.Instruct
 			gargs = append(gargs, ex.operand(fr, st, a))
 		}
 		if c.IsInvoke() {
+			// the interface value the method is invoked on is available to guards as 'recv'
+			fr.specEnvExtra["recv"] = ex.operand(fr, st, c.Value)
 			ex.checkGuardsAt(fr, st, "call", c.Method.Name(), pos, instr.Block(), gargs)
+			delete(fr.specEnvExtra, "recv")
 		} else if sc := c.StaticCallee(); sc != nil {
+			if sc.Signature.Recv() != nil && len(gargs) > 0 {
+				fr.specEnvExtra["recv"] = gargs[0]
+			}
 			ex.checkGuardsAt(fr, st, "call", sc.Name(), pos, instr.Block(), gargs)
+			delete(fr.specEnvExtra, "recv")
 		}
 	}
 	if b, ok := c.Value.(*ssa.Builtin); ok {
@@ -655,8 +662,13 @@ func (ex *Exec) applyPureContract(st *State, fn *ssa.Function, ct *Contract, arg
 		}
 	}
 	for i, a := range args {
-		t := ex.asTerm(a, fn.Params[i].Type())
-		sorts = append(sorts, ex.vc.tc.sortOf(t.T))
+		pt := fn.Params[i].Type()
+		t := ex.asTerm(a, pt)
+		if isInterface(pt) && !isInterface(t.T) && ex.dynRepresentable(t.T) {
+			// a concrete value handed to an interface parameter (specifications do not write the conversion)
+			t = Term{S: sx(ex.vc.tc.dynCtor(t.T), t.S), T: pt}
+		}
+		sorts = append(sorts, ex.vc.tc.sortOf(pt))
 		actuals = append(actuals, t.S)
 	}
 	rs := fn.Signature.Results()
